@@ -20,6 +20,12 @@ P = {
          "Per scan: successful taint writes ≤ max(0, |untainted| − min_nodes), only on members of the untainted list, none when below the minimum.", "§4 C03"),
  "C04": ("proof", "linear-fact entailment through the inlined clamp helper at the single resize site",
          "At the only IncreaseSize call: d ≥ 1, TargetSize + d ≤ MaxSize and ≤ max_nodes on every path; all actions are behind the node-count bounds guard.", "§4 C04"),
+ "C06": ("other", "guarded-value table of the delta φ checked as propositional equivalences (modulo edge strictness) + dispatch guards + reachability of action classes per arm",
+         "The band → delta → action decision table is the documented one on all paths; not the floating-point value of u at a threshold.", "§4 C06"),
+ "C07": ("other", "dominance / path-condition rules in ScaleUp + linear remainder + loop recogniser + comparator cross-check + typestate (MUT/SYNC/READ) over the provider cache with call-graph summaries",
+         "Untaint precedes and gates the cloud request, which is exactly N − untainted ≥ 1; newest-first over all tainted nodes; no stale cached desired capacity is read for a decision within one scan.", "§4 C07"),
+ "C08": ("other", "comparator normal form + collect-loop / sort-dominates-loop / bounded-accumulator recognisers",
+         "The taint loop visits a complete oldest-first sorted copy of the untainted list in order and skips a node only when its write failed (modulo sort.Sort).", "§4 C08"),
  "C09": ("proof", "path-condition implication + interprocedural provenance of action arguments",
          "No action site can receive a node that was cordoned in the scan's snapshot, and capacity/counts come from the untainted list only.", "§4 C09"),
  "C10": ("proof", "path-condition implication + loop-shape recogniser + who-may-call",
